@@ -72,6 +72,8 @@ def gen_world(rng, i, tier):
     # the caller's callback may itself read a configuration through the library (an allow-list) before it answers
     w["nested"] = rng.chance(0.25)
     w["repeat_under_budget"] = rng.chance(0.12)
+    # the read runs on a loader thread; the caller that joined it asks for the location (and goes on) on the main thread
+    w["loader_thread"] = (not w["repeat_under_budget"]) and rng.chance(0.12)
     # earlier reads of the same process: other files, other delimiter classes (the arguments live in reused buffers)
     w["stale"] = rng.pick([[], ["good"], ["bad"], ["good", "bad"], ["bad", "good"], ["good:blank"], ["good:mixed", "bad"], ["good:none"], ["bad", "good:blank"]])
     return w
@@ -178,6 +180,7 @@ def plan_for(world, positions):
             cb = {"nested": c06.POLICY}
             tree += c06.POLICY_NODES
     ops += gen.layered_read_ops(read, cb=cb, init=world["init"])
+    n_loader = len(ops)
     ops.append({"op": "errLocation", "tag": "loc"})
     ops.append({"op": "errLocation", "tag": "loc_again"})      # asking twice gives the same answer
     if world.get("repeat_under_budget"):
@@ -200,6 +203,8 @@ def plan_for(world, positions):
     if world.get("errstrings"):
         for c in range(25):
             ops.append({"op": "errString", "code": c, "tag": "es%d" % c})
+    if world.get("loader_thread"):
+        return {"cfg": dict(world["cfg"], stack_kb=8192), "tree": tree, "ops": ops[:n_loader], "epilogue": ops[n_loader:]}, expect
     return {"cfg": world["cfg"], "tree": tree, "ops": ops}, expect
 
 
@@ -231,7 +236,9 @@ def check(world, plans, results):
         rd = tagged(plan, res, "read")
         loc = tagged(plan, res, "loc")
         from .base import all_tagged
-        for mi, miss in enumerate(all_tagged(plan, res, "missing")):
+        if "epilogue" in plan:
+            v.probe("location_asked_on_another_thread_than_the_read")
+        for mi, miss in enumerate(all_tagged(plan, res, "missing") + all_tagged(plan, res, "missing", "epilogue")):
             if miss["rc"] != 3:
                 v.fail("missing-file", "reading a missing file (%s) returned %r instead of file-not-found" % (["no such directory", "a path component is a regular file", "name longer than NAME_MAX"][mi], miss["rc"]))
         if expect is None:
